@@ -232,45 +232,100 @@ example : runData .repaired ⟨[]⟩ {} witnessTable [witnessData, witnessData] 
 
 /-! ### enforcer pool -/
 
-/-- **A pool that starts without stored errors has none after any call**, whatever the verdict -/
-theorem pool_clean (env : Env) (p : Pool) (v : PyVal) :
-    ((p.enforce .repaired env v).1).errors = [] ∧ ((p.enforce .repaired env v).1).enforcers = p.enforcers := by
+/-- a call never changes the enforcers -/
+theorem pool_enforcers (var : Variant) (env : Env) (p : Pool) (v : PyVal) :
+    ((p.enforce var env v).1).enforcers = p.enforcers := by
   unfold Pool.enforce
-  generalize p.errors ++ List.map Enf.err (List.filter (fun e => !e.ok env v) p.enforcers) = errs
-  match errs with
-  | [] => simp
-  | [e] => simp
-  | _ :: _ :: _ => simp
+  simp only []
+  split <;> rfl
 
-/-- the verdict of a clean pool depends on the value only: accepted iff every enforcer's rule holds -/
-theorem pool_accept_iff (env : Env) (p : Pool) (v : PyVal) (hc : p.errors = []) :
-    (p.enforce .repaired env v).2 = .ok () ↔ ∀ e ∈ p.enforcers, e.ok env v = true := by
+/-- the verdict as a function of what the loop collected -/
+def verdictOf : List VErr × Bool → V
+  | (_, true) => .error .attributeError
+  | ([], false) => .ok ()
+  | ([e], false) => .error e
+  | (_, false) => .error .aggregate
+
+theorem enforce_repaired_snd (env : Env) (p : Pool) (v : PyVal) :
+    (p.enforce .repaired env v).2 = verdictOf (collect env v p.enforcers []) := by
   unfold Pool.enforce
-  rw [hc]
-  simp only [List.nil_append]
-  generalize hf : p.enforcers.filter (fun e => !e.ok env v) = bad
-  have hall : (∀ e ∈ p.enforcers, e.ok env v = true) ↔ bad = [] := by
-    rw [← hf, List.filter_eq_nil_iff]
-    simp
-  rw [hall]
-  cases bad with
-  | nil => simp
-  | cons b bs => cases bs <;> simp
+  simp only []
+  split <;> simp_all [verdictOf]
 
-theorem pool_run_independent (env : Env) (p : Pool) (hc : p.errors = []) (vs : List PyVal) :
+/-- **The verdict of a pool depends on its enforcers and the value only**, not on what earlier calls left behind -/
+theorem pool_clean (env : Env) (p q : Pool) (v : PyVal) (h : p.enforcers = q.enforcers) :
+    (p.enforce .repaired env v).2 = (q.enforce .repaired env v).2 := by
+  rw [enforce_repaired_snd, enforce_repaired_snd, h]
+
+theorem collect_ok (env : Env) (v : PyVal) (l : List Enf) (acc : List VErr)
+    (h : ∀ e ∈ l, e.check env v = .ok) : collect env v l acc = (acc, false) := by
+  induction l generalizing acc with
+  | nil => rfl
+  | cons e rest ih =>
+    simp only [collect, h e (by simp)]
+    exact ih acc (fun x hx => h x (List.mem_cons_of_mem _ hx))
+
+theorem collect_mono (env : Env) (v : PyVal) (l : List Enf) (acc : List VErr) :
+    acc.length ≤ (collect env v l acc).1.length := by
+  induction l generalizing acc with
+  | nil => simp [collect]
+  | cons e rest ih =>
+    simp only [collect]
+    split
+    · exact ih acc
+    · exact Nat.le_trans (by simp) (ih _)
+    · simp
+
+/-- a value is accepted iff every enforcer's rule holds for it -/
+theorem pool_accept_iff (env : Env) (p : Pool) (v : PyVal) :
+    (p.enforce .repaired env v).2 = .ok () ↔ ∀ e ∈ p.enforcers, e.check env v = .ok := by
+  rw [enforce_repaired_snd]
+  constructor
+  · intro h
+    have key : ∀ (l : List Enf) (acc : List VErr), collect env v l acc = ([], false) → (∀ e ∈ l, e.check env v = .ok) := by
+      intro l
+      induction l with
+      | nil => intro _ _ e he; cases he
+      | cons e rest ih =>
+        intro acc hc x hx
+        simp only [collect] at hc
+        cases hck : e.check env v with
+        | ok =>
+          rw [hck] at hc
+          simp only at hc
+          rcases List.mem_cons.mp hx with rfl | hx'
+          · exact hck
+          · exact ih acc hc x hx'
+        | bad err =>
+          rw [hck] at hc
+          simp only at hc
+          have := collect_mono env v rest (acc ++ [err])
+          rw [hc] at this
+          simp at this
+        | raised => rw [hck] at hc; simp at hc
+    rcases hc : collect env v p.enforcers [] with ⟨errs, raised⟩
+    rw [hc] at h
+    cases raised
+    · match errs, h with
+      | [], _ => exact key _ _ hc
+      | [e], h => simp [verdictOf] at h
+      | _ :: _ :: _, h => simp [verdictOf] at h
+    · simp [verdictOf] at h
+  · intro h
+    rw [collect_ok env v p.enforcers [] h]
+    rfl
+
+theorem pool_run_independent (env : Env) (p : Pool) (vs : List PyVal) :
     Pool.run .repaired env p vs = vs.map fun v => (p.enforce .repaired env v).2 := by
   induction vs generalizing p with
   | nil => rfl
   | cons v vs ih =>
     simp only [Pool.run, List.map_cons]
-    have hcl := pool_clean env p v
-    have hp : (p.enforce .repaired env v).1 = p := by
-      rcases hq : (p.enforce .repaired env v).1 with ⟨en, er⟩
-      rw [hq] at hcl
-      rcases p with ⟨pen, per⟩
-      simp only at hcl hc
-      rw [hcl.1, hcl.2, hc]
-    rw [hp, ih p hc]
+    rw [ih]
+    congr 1
+    apply List.map_congr_left
+    intro w _
+    exact pool_clean env _ p w (pool_enforcers .repaired env p v)
 
 def witnessPool : Pool := { enforcers := [.type [.str], .value [.str "a", .str "b"]] }
 
@@ -279,6 +334,9 @@ theorem asFound_pool_stateful :
     Pool.run .asFound ⟨[]⟩ witnessPool [.int 3, .str "a"] = [.error .aggregate, .error .aggregate] := by decide
 
 example : Pool.run .repaired ⟨[]⟩ witnessPool [.int 3, .str "a"] = [.error .aggregate, .ok ()] := by decide
+
+/-- a Python error that escapes the pool (an unhashable value meeting a value rule) leaves no trace either -/
+example : Pool.run .repaired ⟨[]⟩ witnessPool [.list [], .str "a"] = [.error .attributeError, .ok ()] := by decide
 
 /-! ### parameter values -/
 
